@@ -11,6 +11,7 @@ import (
 	"verif/harness/internal/core"
 	"verif/harness/internal/graph"
 	"verif/harness/internal/layers"
+	"verif/harness/internal/outputs"
 	"verif/harness/internal/sched"
 	"verif/harness/internal/taskrun"
 	"verif/harness/internal/timed"
@@ -23,6 +24,7 @@ var engines = map[string]engine{
 	"C05": graph.Check,
 	"C06": taskrun.CheckC06, "C07": taskrun.CheckC07,
 	"C08": layers.CheckC08, "C09": layers.CheckC09, "C10": layers.CheckC10,
+	"C11": outputs.Check,
 	"C12": cancel.Check,
 	"C13": timed.Check,
 }
